@@ -60,6 +60,32 @@ def stats(pg, coal, cfg, c):
     return out
 
 
+def compare(ctx, cfg, c, base, st, base_coal):
+    for (name, k, v0), (_, _, v) in zip(base, st):
+        if name == 'q50':
+            # quantile() promises F(b) - F(a) < precision = 1e-5 for its bracketing interval, nothing about the width of
+            # [a, b] in time: the scaled quantile, brought back to the base unit, must be a 0.5-quantile of the BASE
+            # distribution to that precision (a relative comparison of the two times is not implied where F is flat)
+            with C.LogCapture() as lq:
+                F = [float(x) for x in base_coal.tree_height.cdf(np.array([v / c, v0]))]
+            if lq.records:
+                ctx.count('warned-q50'); continue
+            ctx.count('q50-compared')
+            if not (abs(F[0] - 0.5) <= 1e-5 + 1e-9 and abs(F[1] - 0.5) <= 1e-5 + 1e-9):
+                ctx.violation('rescale:q50', cfg=cfg, scale=c, order=k, base=v0, scaled=v, expected_ratio=c,
+                              base_cdf_at_scaled_quantile=F[0], base_cdf_at_base_quantile=F[1], tolerance=1e-5)
+            continue
+        a = np.array(v0, dtype=float).ravel()
+        b = np.array(v, dtype=float).ravel() / (c ** k)
+        tol = 1e-9
+        if name.endswith('corr') or name == 'cdf':
+            bad = np.abs(a - b) > 1e-9
+        else:
+            bad = np.abs(a - b) > tol * np.maximum(np.abs(a), np.abs(b)) + 1e-300
+        if bad.any():
+            ctx.violation(f'rescale:{name}', cfg=cfg, scale=c, order=k, base=v0, scaled=v, expected_ratio=c ** k)
+
+
 def one(ctx, i):
     pg = C.import_phasegen()
     rng = random.Random(f'{ctx.seed}-c09-{i}')
@@ -95,18 +121,9 @@ def one(ctx, i):
         used += 1
         ctx.count(f'scale=1e{round(math.log10(c))}' if c not in (0.125, 8.0) else f'scale={c}')
         if base is None:
-            base = st
+            base, base_coal = st, coal
             continue
-        for (name, k, v0), (_, _, v) in zip(base, st):
-            a = np.array(v0, dtype=float).ravel()
-            b = np.array(v, dtype=float).ravel() / (c ** k)
-            tol = 1e-9 if name not in ('q50',) else 3e-5    # quantiles only to the precision of the bisection (1e-5 in probability)
-            if name.endswith('corr') or name == 'cdf':
-                bad = np.abs(a - b) > 1e-9
-            else:
-                bad = np.abs(a - b) > tol * np.maximum(np.abs(a), np.abs(b)) + 1e-300
-            if bad.any():
-                ctx.violation(f'rescale:{name}', cfg=cfg, scale=c, order=k, base=v0, scaled=v, expected_ratio=c ** k)
+        compare(ctx, cfg, c, base, st, base_coal)
     ctx.case(dict(cfg=cfg, scales=scales), gen.cfg_key(cfg) if used >= 2 else None)
     ctx.count(cfg['model'][0])
     # regularisation off changes nothing in the moderate regime
@@ -151,9 +168,7 @@ def replay(ctx, payload):
     c = payload.get('scale', 1.0)
     ctx.case(dict(cfg=cfg), 'replay')
     if payload['signature'].startswith('rescale'):
-        a = stats(pg, conv.make_coalescent(pg, cfg), cfg, 1.0)
+        bc = conv.make_coalescent(pg, cfg)
+        a = stats(pg, bc, cfg, 1.0)
         b = stats(pg, conv.make_coalescent(pg, scale_cfg(cfg, c)), cfg, c)
-        for (name, k, v0), (_, _, v) in zip(a, b):
-            x = np.array(v0, dtype=float).ravel(); y = np.array(v, dtype=float).ravel() / (c ** k)
-            if (np.abs(x - y) > 3e-5 * np.maximum(np.abs(x), np.abs(y)) + 1e-9).any():
-                ctx.violation(f'rescale:{name}', cfg=cfg, scale=c, order=k, base=v0, scaled=v)
+        compare(ctx, cfg, c, a, b, bc)
